@@ -173,6 +173,10 @@ func urlCarrierOf(n *html.Node, attrName string) string {
 			return "a_cell"
 		case urlHasAncestor(n, "li"):
 			return "a_li"
+		case urlHasAncestor(n, "h2"):
+			return "a_head"
+		case n.FirstChild != nil && n.FirstChild.Type == html.ElementNode && n.FirstChild.Data == "em":
+			return "a_wrap"
 		}
 		return "a_para"
 	case n.Data == "img" && attrName == "src":
@@ -365,6 +369,11 @@ func (ug *urlGen) carrierHTML(carrier string, classes []string, desc string) str
 	switch carrier {
 	case "a_para":
 		return "<p>" + w(30) + ` <a href="` + r1() + `">` + w(2) + "</a> " + w(30) + "</p>"
+	case "a_wrap":
+		// the whole text of the block sits in an inline element inside the link
+		return `<p><a href="` + r1() + `"><em>` + w(45) + `</em></a></p>`
+	case "a_head":
+		return `<h2><a href="` + r1() + `"><span>` + w(6) + `</span></a></h2>`
 	case "a_li":
 		return "<ul><li>" + w(25) + ` <a href="` + r1() + `">` + w(2) + "</a> " + w(25) + "</li><li>" + w(45) + "</li></ul>"
 	case "a_figcap":
